@@ -198,8 +198,12 @@ impl<'a> BlobIngestion<'a> {
         // Acquire locks for version registration on the index tree. We must
         // hold both the compaction state lock and version history lock to
         // safely modify the tree's version.
+        #[cfg(feature = "verif_hooks")]
+        crate::verif_hooks::before_lock(crate::verif_hooks::LockId::CompactionState, crate::verif_hooks::Mode::Lock);
         #[expect(clippy::expect_used, reason = "lock is expected to not be poisoned")]
         let mut _compaction_state = index.compaction_state.lock().expect("lock is poisoned");
+        #[cfg(feature = "verif_hooks")]
+        crate::verif_hooks::before_lock(crate::verif_hooks::LockId::VersionHistory, crate::verif_hooks::Mode::Write);
         #[expect(clippy::expect_used, reason = "lock is expected to not be poisoned")]
         let mut version_lock = index.version_history.write().expect("lock is poisoned");
 
